@@ -46,6 +46,8 @@ CHECKS = {
             "Held on the accepted synthesised streams of each reference version (2.7, 3.6-3.13); the synthesiser is untrusted and streams a reference rejects are discarded; text-format NaN is not generated for Python 2.", "7/C10"),
     "C19": ("translation_validation", "per-output validation of freeze(): each encoded line table is decoded by xdis's own line-start routine and by the matching CPython (which installs the bytes in a code object) and compared with the input mapping",
             "Every encoder output produced in the run is validated against its input by two independent decoders; no claim about the encoders beyond the mappings generated (all offset-gap / line-gap classes of the statement).", "7/C19"),
+    "C13": ("translation_validation", "per-output validation of write_bytecode_file: the target interpreter loads each written file (canonical equality with the original), xdis re-reads it, and the target executes original and rewritten file and the behaviours are compared",
+            "Each written file is validated individually by its own target interpreter (2.7, 3.6-3.13); a writer raise counts as refused; NaN constants compare as 'is a NaN'. No claim about files the generators did not produce.", "7/C13"),
 }
 
 PENDING = {}
